@@ -69,6 +69,13 @@ claimed = {
    note=(TB + "Assumed: storage sizes are multiples of the page size and below 2^48; the akita page table is an external component (extern declarations); deviceIDByPAddr enters through a trusted contract "
          "(map iteration is not modelled). One genuine defect repaired (stale live-page entry after Free). Observed, not decided by a check: Driver.FreeMemory frees only the first page of a multi-page buffer."),
    design="5 (C10)", technique="deductive verification: WP-style VC generation over go/ssa + SMT (queue view of the free list, loop invariant with page-size case split)"),
+ "C14": dict(
+   text=("The two wait guards of the timing scheduler are under contract for every wavefront state: evalSWaitCnt completes exactly when both outstanding-access counters are at or below the counts the instruction asks for, "
+         "and evalSEndPgm never completes (and changes nothing) while a vector or scalar memory access of the wavefront is outstanding. Barrier release (evalSBarrier/EvaluateInternalInst), completion messages, "
+         "the counter decrements on memory responses and the emulation-mode barrier are not yet under contract."),
+   note=(TB + "The helpers the guards call after their decision (work-group scans, completion message, register reset, tracing) are declared external (frame-only). "
+         "Suspect not decided: a wavefront held in the internally-executing list because the barrier buffer is full is released by another wavefront's s_endpgm without being removed from that list (DESIGN.md 9.4)."),
+   design="5 (C14)", technique="deductive verification: WP-style VC generation over go/ssa + SMT (pre/postconditions of the guard functions)"),
  "C15": dict(
    text=("Step contracts of the reorder buffer, for every state and message: the copies forwarded to the lower level carry the requester's address, size, PID, data and dirty mask unchanged and are addressed to the bottom unit "
          "(duplicateReadReq/duplicateWriteReq, with the akita builders inlined); bottomUp answers only the head transaction, only when its response has arrived, and retires it only after the top port accepted the response; "
